@@ -256,7 +256,9 @@ def build3(m):
         classmethod_=True)
     method('BlockCode', 'start', Contract(
         MOD + ':BlockCode.start', [('line', STR)], returns=BOOL, pure=True,
-        ensures=['result == INDENTED(line)'], prop=['C01']), static=True)
+        ensures=["result == (line.strip() != '' and INDENTED(line))",
+                 # CommonMark 2.1 / 4.4: a line of spaces and tabs is blank and cannot open an indented chunk
+                 ("implies(result, line.strip() != '')", ['C03', 'C02', 'C13'])], prop=['C01']), static=True)
     method('Quote', 'start', Contract(
         MOD + ':Quote.start', [('line', STR)], returns=BOOL, pure=True,
         ensures=["implies(result, line.lstrip(' ').startswith('>'))"], prop=['C01', 'C04']), static=True)
